@@ -82,6 +82,24 @@ def run (c : Cfg) (nd : Node) (v : Retrieve.DAView) : Node × Retrieve.DAView ×
   let f := feed c nd.full r.2.2.1
   ({ full := f.1, cursor := r.1.daHeight }, r.2.1, f.2)
 
+def isHdr : Retrieve.Event → Bool
+  | .hdr _ _ => true
+  | .dat _ _ => false
+
+/-- one of the schedules `select` may produce: one channel is served completely before the other, and the last
+`hold` events of the other channel are still queued (never handled) when the node is stopped -/
+def sched (hdrFirst : Bool) (hold : Nat) (evs : List Retrieve.Event) : List Retrieve.Event :=
+  let hs := evs.filter isHdr
+  let ds := evs.filter (fun e => !isHdr e)
+  if hdrFirst then hs ++ ds.take (ds.length - hold) else ds ++ hs.take (hs.length - hold)
+
+/-- a scan whose events are served in the schedule `sched hdrFirst hold`; the node is then stopped cleanly with the
+held events still queued (queued events are not part of what `SaveCache` writes) -/
+def runHeld (c : Cfg) (nd : Node) (v : Retrieve.DAView) (hdrFirst : Bool) (hold : Nat) : Node × Retrieve.DAView × List SW :=
+  let r := Retrieve.scan c.sync.proposerAddr (scanFuel nd.cursor v.top) (rnodeOf nd) v [] []
+  let f := feed c nd.full (sched hdrFirst hold r.2.2.1)
+  ({ full := f.1, cursor := r.1.daHeight }, r.2.1, f.2)
+
 /-- clean stop (`SaveCache`) and restart on the same store and cache directory -/
 def restartClean (c : Cfg) (nd : Node) : Option (Node × List SW) := start c nd.full.store nd.full
 
@@ -89,6 +107,51 @@ def restartClean (c : Cfg) (nd : Node) : Option (Node × List SW) := start c nd.
 image with empty caches -/
 def restartCrash (c : Cfg) (before : Store) (ws : List SW) (k : Nat) : Option (Node × List SW) :=
   start c (before.applyPrefix k ws) {}
+
+/-! ## histories: what happens to the node and to the DA layer, one operation at a time -/
+
+inductive HOp
+  | place (da : Nat) (b : Bytes) (o : Retrieve.Oracle)   -- somebody's blob is included at DA height `da`
+  | head (n : Nat)                                        -- the DA layer has produced the heights below `n`
+  | script (da : Nat) (l : List Retrieve.Fetch)           -- outcomes of the next fetch attempts at DA height `da`
+  | run                                                   -- both loops run until quiescent
+  | runHeld (hdrFirst : Bool) (hold : Nat)                -- ... in the schedule `sched`, `hold` events never handled
+  | restart                                               -- clean stop and restart
+  | crash (k : Nat)                                       -- the process dies after `k` of the last writes; restart
+  deriving Inhabited
+
+/-- the node, the DA layer, and the durable writes made since the store was `before` (what a crash can cut) -/
+structure HSt where
+  nd : Node := {}
+  v : Retrieve.DAView := {}
+  before : Store := {}
+  ws : List SW := []
+  ok : Bool := true          -- `NewManager` succeeded at the last (re)start
+  deriving Inhabited
+
+def started (s : HSt) (disk : Store) : Option (Node × List SW) → HSt
+  | none => { s with ok := false }
+  | some (nd, ws) => { s with nd := nd, before := disk, ws := ws, ok := true }
+
+def hstep (c : Cfg) (s : HSt) : HOp → HSt
+  | .place da b o => { s with v := { s.v with placed := s.v.placed ++ [(da, b, o)], top := max s.v.top (da + 1) } }
+  | .head n => { s with v := { s.v with top := max s.v.top n } }
+  | .script da l => if l.isEmpty then s else { s with v := s.v.setScript da l }
+  | .run =>
+    if !s.ok then s else
+    let r := run c s.nd s.v
+    { s with nd := r.1, v := r.2.1, before := s.nd.full.store, ws := r.2.2 }
+  | .runHeld hf hold =>
+    if !s.ok then s else
+    let r := runHeld c s.nd s.v hf hold
+    { s with nd := r.1, v := r.2.1, before := s.nd.full.store, ws := r.2.2 }
+  | .restart => if !s.ok then s else started s s.nd.full.store (restartClean c s.nd)
+  | .crash k => if !s.ok then s else started s (s.before.applyPrefix k s.ws) (restartCrash c s.before s.ws k)
+
+/-- the node of a first start on an empty store, with an empty DA layer -/
+def hinit (c : Cfg) : HSt := started {} {} (start c {} {})
+
+def hrun (c : Cfg) (ops : List HOp) : HSt := ops.foldl (hstep c) (hinit c)
 
 /-! ## blobs of the proposer's chain as they appear on the DA layer -/
 
